@@ -227,6 +227,28 @@ func genC15(e *emitter, tier string) {
 			e.emit(graphCase("arity-through-run", &GraphJ{Inputs: vin, Nodes: []NodeJ{n}, Outputs: []string{"y"}}, []NamedT{x}))
 		}
 	}
+	// an omitted optional input is the EMPTY name; nothing bound to the empty name elsewhere may be handed to
+	// the operator in its place: a multi-output node that leaves an output out (""), an extra caller entry
+	// under "", an initializer without a name
+	{
+		W := InitJ{Name: "W", T: tinyT("f32", []int{1, 2, 3}, 1)}
+		R := InitJ{Name: "R", T: tinyT("f32", []int{1, 2, 2}, 2)}
+		wm := InitJ{Name: "wm", T: smallT("f32", []int{2, 2}, 4)}
+		x := NamedT{"x", smallT("f32", []int{2, 2, 3}, 1)}
+		vin := []VInfoJ{{Name: "x", Dt: "f32", Dims: []any{2, 2, 3}}}
+		rnn := NodeJ{Op: "RNN", Attrs: []Attr{{Name: "hidden_size", Type: "i", I: 2}, {Name: "activations", Type: "strings", Ss: []string{"relu"}}}, Ins: []string{"x", "W", "R"}, Outs: []string{"", "Yh"}}
+		sq := NodeJ{Op: "Squeeze", Ins: []string{"Yh", ""}, Outs: []string{"s"}}
+		gm := NodeJ{Op: "Gemm", Ins: []string{"s", "wm", ""}, Outs: []string{"g"}}
+		rnn2 := NodeJ{Op: "RNN", Attrs: []Attr{{Name: "hidden_size", Type: "i", I: 2}, {Name: "activations", Type: "strings", Ss: []string{"relu"}}}, Ins: []string{"x", "W", "R", "", "", ""}, Outs: []string{"Y2", ""}}
+		e.emit(graphCase("empty-name-bound", &GraphJ{Inputs: vin, Inits: []InitJ{W, R, wm}, Nodes: []NodeJ{rnn, sq, gm}, Outputs: []string{"Yh", "s", "g"}}, []NamedT{x}))
+		e.emit(graphCase("empty-name-bound", &GraphJ{Inputs: vin, Inits: []InitJ{W, R, wm}, Nodes: []NodeJ{rnn, rnn2, sq, gm}, Outputs: []string{"Yh", "Y2", "s", "g"}}, []NamedT{x}))
+		// the caller's map has an entry under the empty name
+		e.emit(graphCase("empty-name-bound", &GraphJ{Inputs: vin, Inits: []InitJ{W, R, wm}, Nodes: []NodeJ{rnn2, {Op: "Squeeze", Ins: []string{"Y2", ""}, Outs: []string{"s"}}}, Outputs: []string{"Y2", "s"}},
+			[]NamedT{x, {"", idxT("i64", []int{1}, []int{0})}}))
+		// an initializer without a name
+		e.emit(graphCase("empty-name-bound", &GraphJ{Inputs: vin, Inits: []InitJ{W, R, wm, {Name: "", T: smallT("f32", []int{2, 2}, 7)}},
+			Nodes: []NodeJ{rnn2, {Op: "Squeeze", Ins: []string{"Y2", ""}, Outs: []string{"s"}}, {Op: "Squeeze", Ins: []string{"x"}, Outs: []string{"x2"}}, {Op: "Gemm", Ins: []string{"wm", "wm", ""}, Outs: []string{"g"}}}, Outputs: []string{"Y2", "s", "g"}}, []NamedT{x}))
+	}
 	// names outside the opset
 	for _, bad := range []string{"", "abs", "ABS", "Abs ", " Abs", "Abs\n", "\tRelu", "Conv2D", "Foo", "Gelu", "MaxPool", "Relu6", "Rel", "lstm", "Lstm", "Identity", "Dropout", "ai.onnx.Relu", "Relu:13", "Add,Sub"} {
 		c := &Case{Kind: "lookup", Op: bad, P: map[string]any{"registered": false}}
